@@ -88,12 +88,15 @@ type FakeTransport struct {
 	NoCut    func(pending []byte, k int) bool // true: delivering exactly k bytes is not allowed (mid escape sequence)
 	NextEnd  func(off int) int                // when set: a read never crosses the next message end after stream offset off
 
-	StallAt    int // -1: never; else the device goes silent once this many bytes were delivered
-	LossAt     int // -1: never; else the connection is lost once this many bytes were delivered
-	Loss       LossKind
-	WriteErrAt int // -1: never; else the i-th Write (0-based) and all later ones fail
-	OnClose    CloseMode
-	OpenErr    error
+	StallAt          int // -1: never; else the device goes silent once this many bytes were delivered
+	LossAt           int // -1: never; else the connection is lost once this many bytes were delivered
+	Loss             LossKind
+	WriteErrAt       int // -1: never; else the i-th Write (0-based) and all later ones fail
+	OnClose          CloseMode
+	WriteOKAfterLoss bool          // writes after a read-side loss succeed silently (the peer is gone, the kernel buffers)
+	LossTime         time.Duration // virtual time the first loss answer was delivered (-1: not yet)
+	WriteFailTime    time.Duration
+	OpenErr          error
 
 	pending   []byte
 	sent      int
@@ -115,7 +118,7 @@ type FakeTransport struct {
 
 // NewFake returns a transport with no faults.
 func NewFake(e *sched.Env, d Device) *FakeTransport {
-	t := &FakeTransport{E: e, Dev: d, StallAt: -1, LossAt: -1, WriteErrAt: -1}
+	t := &FakeTransport{E: e, Dev: d, StallAt: -1, LossAt: -1, WriteErrAt: -1, LossTime: -1, WriteFailTime: -1}
 	e.AddSource(t)
 	return t
 }
@@ -190,12 +193,18 @@ func (t *FakeTransport) Write(b []byte) error {
 	}
 	t.Writes = append(t.Writes, WriteRec{Step: t.E.Step(), Data: append([]byte(nil), b...), Delivered: t.Delivered, State: st, Thread: tid})
 	if t.WriteErrAt >= 0 && idx >= t.WriteErrAt {
+		if t.WriteFailTime < 0 {
+			t.WriteFailTime = t.E.Now()
+		}
 		return ErrWrite
 	}
 	if t.closed {
 		return ErrClosed
 	}
 	if t.lossFired > 0 {
+		if t.WriteOKAfterLoss {
+			return nil
+		}
 		return ErrWrite
 	}
 	out := t.Dev.React(b)
@@ -239,9 +248,9 @@ func (t *FakeTransport) Actions() []sched.EnvAction {
 		if t.Delivered >= t.LossAt {
 			switch {
 			case t.Loss == LossEOF, t.Loss == LossEIOThenEOF && t.lossFired > 0:
-				return []sched.EnvAction{{Label: "rd:loss-eof", Do: func() { t.lossFired++; t.answer(nil, io.EOF) }}}
+				return []sched.EnvAction{{Label: "rd:loss-eof", Do: func() { t.markLoss(); t.answer(nil, io.EOF) }}}
 			default:
-				return []sched.EnvAction{{Label: "rd:loss-eio", Do: func() { t.lossFired++; t.answer(nil, ErrEIO) }}}
+				return []sched.EnvAction{{Label: "rd:loss-eio", Do: func() { t.markLoss(); t.answer(nil, ErrEIO) }}}
 			}
 		}
 		if t.Delivered+avail > t.LossAt {
@@ -286,6 +295,13 @@ func (t *FakeTransport) Actions() []sched.EnvAction {
 		}
 	}
 	return acts
+}
+
+func (t *FakeTransport) markLoss() {
+	t.lossFired++
+	if t.LossTime < 0 {
+		t.LossTime = t.E.Now()
+	}
 }
 
 // Kill ends the execution: a blocked read returns EOF, later calls fail.
